@@ -37,9 +37,10 @@ func NewModel(opts ...resource.Option) *Model {
 
 func (m *Model) CreateHail(hail *traits.Hail) (*traits.Hail, error) {
 	defer m.gc()
+	// (the id is the model's to write, whatever writable fields the collection was configured with)
 	return castReturn(m.hails.Add("", hail, resource.WithGenIDIfAbsent(), resource.WithIDCallback(func(id string) {
 		hail.Id = id
-	})))
+	}), resource.WithMoreWritablePaths("id")))
 }
 
 func (m *Model) GetHail(id string, opts ...resource.ReadOption) (*traits.Hail, bool) {
@@ -56,7 +57,7 @@ func (m *Model) UpdateHail(hail *traits.Hail, opts ...resource.WriteOption) (*tr
 	}
 	// the id is part of every write, whatever the update mask says: a hail created by this call (create-if-absent)
 	// from the masked fields alone would be filed under its key with an empty Id of its own
-	opts = append(opts[:len(opts):len(opts)], resource.WithMoreUpdatePaths("id"))
+	opts = append(opts[:len(opts):len(opts)], resource.WithMoreUpdatePaths("id"), resource.WithMoreWritablePaths("id"))
 	msg, err := m.hails.Update(hail.Id, hail, opts...)
 	return castReturn(msg, err)
 }
